@@ -302,6 +302,9 @@ def build(desc, old_spec=("abs", 0), old_seed=1):
             return bytes(f[nl:nl + n])
         b.ref_read = ref_read
         return b
+    if kind == "t3s":                  # multi-system FeliCa Standard card
+        from props import tagcommon_r4b
+        return tagcommon_r4b.build_t3s(b, desc, old_spec, old_seed)
     raise ValueError(kind)
 
 
@@ -360,7 +363,7 @@ def hist_len(allow_over):
                      st.tuples(st.just("abs"), st.integers(0, 60)))
 
 
-def hist_ops(allow_over=True, min_size=2, max_size=7):
+def hist_ops(allow_over=True, min_size=2, max_size=7, dump=0):
     """strategy: list of operations for one tag object.  Message seeds come
     from a small set and "again" repeats the last attempted assignment, so
     a later assignment regularly carries octets an earlier one carried."""
@@ -378,10 +381,14 @@ def hist_ops(allow_over=True, min_size=2, max_size=7):
         "version": st.sampled_from([None, None, 0x10, 0x11, 0x12, 0x20]),
         "wipe": st.one_of(st.none(), st.integers(0, 255)),
         "fault": hist_fault(5)})
+    # {"op": "dump"}: tag.dump() (``dump`` = weight, the others sum to 9)
+    dmp = st.fixed_dictionaries({"op": st.just("dump"),
+                                 "fault": hist_fault(2)})
     by_name = {"write": write, "read": read, "changed": changed,
-               "format": fmt}
+               "format": fmt, "dump": dmp}
     op = st.sampled_from(["write"] * 5 + ["read", "changed", "format",
-                                          "format"]).flatmap(by_name.get)
+                                          "format"] + ["dump"] * dump
+                         ).flatmap(by_name.get)
     return st.lists(op, min_size=min_size, max_size=max_size)
 
 
@@ -400,9 +407,12 @@ def t1t_hist():
         t1t_desc().map(lambda d: dict(d, size=14, hr1=0x48)))
 
 
-def hist_desc(t2t=4, t1t=3, t3t=1, t3e=1, t4t=2):
+def hist_desc(t2t=4, t1t=3, t3t=1, t3e=1, t4t=2, t3s=0):
     """tag descriptions of all types; the arguments are relative weights"""
+    if t3s:
+        from props import tagcommon_r4b
     by_kind = {
+        "t3s": tagcommon_r4b.t3s_desc() if t3s else None,
         "t2t": t2t_desc(), "t1t": t1t_hist(),
         "t3t": t3t_desc("t3t").map(
             lambda d: dict(d, nmaxb=min(d["nmaxb"], 300))),
@@ -410,7 +420,7 @@ def hist_desc(t2t=4, t1t=3, t3t=1, t3e=1, t4t=2):
             lambda d: dict(d, nmaxb=min(d["nmaxb"], 300))),
         "t4t": t4t_desc().map(lambda d: dict(d, fsize=min(d["fsize"], 2000)))}
     return st.sampled_from(["t2t"] * t2t + ["t1t"] * t1t + ["t3t"] * t3t +
-                           ["t3e"] * t3e + ["t4t"] * t4t
+                           ["t3e"] * t3e + ["t4t"] * t4t + ["t3s"] * t3s
                            ).flatmap(by_kind.get)
 
 
@@ -500,6 +510,9 @@ def current_area(b, image=None):
     image holds no NDEF management data the model can read"""
     image = bytes(b.tag.mem) if image is None else bytes(image)
     k = b.kind
+    if k == "t3s":
+        from props import tagcommon_r4b
+        return tagcommon_r4b.area_t3s(b, image)
     if k in ("t1t", "t2t"):
         lay = ref_tlv.layout(image, k)
         if lay is None:
@@ -643,5 +656,8 @@ def _hist_op(tag, op, out, last, dev):
     if name == "format":
         out["result"] = _quiet(tag.format, version=op["version"],
                                wipe=op["wipe"])
+        return last
+    if name == "dump":                  # read-only for every tag type
+        out["lines"] = len(_quiet(tag.dump))
         return last
     raise ValueError(name)
